@@ -516,10 +516,14 @@ pub fn c08(ctx: &Ctx) -> PropResult {
             cases.push(Case::new(Kind::Parse, format!("{}DISPLAY(1)\n", bad.repeat(n))).tag("many-syntax-errors"));
         }
     }
+    // (appended) string literals with every escape-like sequence
+    for src in crate::props6::escape_forms() {
+        cases.push(Case::new(Kind::Parse, src).tag("escape-forms"));
+    }
     let stats = run_cases(&ctx.driver, cases, &parse_oracle, &no_known, ctx.threads);
     PropResult {
         stats,
-        rule: format!("every sequence of <= {max_len} tokens over all {k} token kinds rendered to text (exhaustive), random sequences to 10 tokens, every string of length <= 2 over the lexical alphabet, token deletion/duplication/transposition/truncation of repository programs, bracket nesting to depth 200; every diagnostic is rendered with {{:?}}; non-trivial = the text lexes (parser reached); IMPORT with every string position empty / blank / odd in nine forms; characters of other scripts and invisible characters at the start of a token in sixteen contexts; 1 .. 300 repetitions of seven kinds of syntax error"),
+        rule: format!("every sequence of <= {max_len} tokens over all {k} token kinds rendered to text (exhaustive), random sequences to 10 tokens, every string of length <= 2 over the lexical alphabet, token deletion/duplication/transposition/truncation of repository programs, bracket nesting to depth 200; every diagnostic is rendered with {{:?}}; non-trivial = the text lexes (parser reached); IMPORT with every string position empty / blank / odd in nine forms; characters of other scripts and invisible characters at the start of a token in sixteen contexts; 1 .. 300 repetitions of seven kinds of syntax error; string literals with escape forms of other languages"),
         exhaustive: false,
         notes: vec![],
     }
